@@ -77,6 +77,9 @@ def oas(cov: np.ndarray, n: float, D: int) -> np.ndarray:
     tr = np.trace(cov)
     tr2 = tr**2
     tr_cov2 = np.trace(cov**2)
-    phi = ((1 - 2 / D) * tr_cov2 + tr2) / ((n + 1 - 2 / D) * tr_cov2 - tr2 / D)
+    num = (1 - 2 / D) * tr_cov2 + tr2
+    den = (n + 1 - 2 / D) * tr_cov2 - tr2 / D
+    # the shrinkage coefficient is bounded by one (full shrinkage)
+    phi = min(1.0, num / den) if den > 0 else 1.0
 
     return (1 - phi) * cov + phi * np.eye(D) * tr / D
